@@ -221,6 +221,7 @@ pub fn run(run: &mut Run) {
     run.rule = "(a) edit primitive: all texts <=4 (thorough 6) over {a, astral} x all spans x 7 suggestions exhaustively, plus random (text <=40 chars over a 6-symbol alphabet incl. astral/newline, span anywhere incl. empty and both ends, Replace/Insert/Remove, equal-length replacements forced in 1/4 of Replace cases); non-trivial = span touches a text end, is empty, or replacement length = span length. (b) every lint of every document of the C01 sweep (all front-ends, configs, dialects): span inside the text and every suggestion equals the reference splice; non-trivial = a lint behind a multi-byte char, in a later paragraph or in a markup/comment front-end.".into();
     run_edit_primitive(run);
     run.guard = true;
+    run.max_shrink_iters = 400;
     let n = run.n(16_000, 1_000_000);
     run.prop(
         "document_lints",
